@@ -51,26 +51,49 @@ func Minimize(rc RunConfig, actions []Action, target *Violation, opt Options, bu
 			return actions, nil, tests
 		}
 	}
-	// 2. ddmin
-	n := 2
-	for len(cur) >= 2 && time.Now().Before(deadline) {
-		chunk := (len(cur) + n - 1) / n
-		reduced := false
-		for start := 0; start < len(cur); start += chunk {
-			end := min(start+chunk, len(cur))
-			cand := append(append([]Action(nil), cur[:start]...), cur[end:]...)
-			if len(cand) > 0 && test(cand) {
-				cur = cand
-				n = max(n-1, 2)
-				reduced = true
-				break
+	// 1b. coarse passes: drop all actions of one kind, then all actions that
+	// involve one node, when the violation survives that.
+	for k := ActKind(0); k < numActKinds && time.Now().Before(deadline); k++ {
+		var cand []Action
+		for _, a := range cur {
+			if a.K != k {
+				cand = append(cand, a)
 			}
 		}
-		if !reduced {
-			if chunk == 1 {
-				break
+		if len(cand) < len(cur) && len(cand) > 0 && test(cand) {
+			cur = cand
+		}
+	}
+	for _, nc := range rc.Nodes {
+		if !time.Now().Before(deadline) {
+			break
+		}
+		var cand []Action
+		for _, a := range cur {
+			if a.N == nc.ID || ((a.K == ADeliver || a.K == ADrop || a.K == ATransfer || a.K == AUnreachable || a.K == ASnapReport) && a.M == nc.ID) {
+				continue
 			}
-			n = min(n*2, len(cur))
+			cand = append(cand, a)
+		}
+		if len(cand) < len(cur) && len(cand) > 0 && test(cand) {
+			cur = cand
+		}
+	}
+	// 2. delta debugging with sliding windows of halving size, repeated until a
+	// full cascade removes nothing (every candidate is an executable schedule,
+	// because inapplicable actions are no-ops).
+	for progress := true; progress && time.Now().Before(deadline); {
+		progress = false
+		for size := (len(cur) + 1) / 2; size >= 1 && time.Now().Before(deadline); size /= 2 {
+			for i := 0; i+size <= len(cur) && time.Now().Before(deadline); {
+				cand := append(append([]Action(nil), cur[:i]...), cur[i+size:]...)
+				if len(cand) > 0 && test(cand) {
+					cur = cand
+					progress = true
+				} else {
+					i += size
+				}
+			}
 		}
 	}
 	// 3. per-action simplification
@@ -82,11 +105,6 @@ func Minimize(rc RunConfig, actions []Action, target *Violation, opt Options, bu
 			if a.B {
 				b := a
 				b.B = false
-				alts = append(alts, b)
-			}
-			if a.I > 0 {
-				b := a
-				b.I = 0
 				alts = append(alts, b)
 			}
 		case ACrash:
